@@ -664,11 +664,11 @@ def replay(ctx, data):
 
 
 LEVEL_TEXT = ('Machine-checked proof (Coq 8.16.1) over a model re-translated from /repo on every run: for every int declaration (size, unsigned, min, max) Pony accepts and every '
-              'integer v, IntConverter.validate accepts v (unchanged) iff v satisfies the declared bounds and the range of the declared size/signedness, else raises ValueError '
-              '(C08_int_declaration, C08_int_except_known, C08_int_reject_except_known); the same for float (all non-NaN values), Decimal (full statement), str (autostrip + max_len, with a proved '
-              'characterisation of strip()), and for None/empty/required/nullable/py_check handling of Attribute.validate / Required.validate over any converter (C08_optional, C08_required). '
-              'On the unchanged code the theorems for int/float/str hold on the exact complement of the recorded defect (a declared bound equal to 0 is dropped; float NaN passes any bounds), '
-              'with refuting witnesses in Findings/C08.v; the same proof scripts yield the unrestricted statement once the proposed one-line repair is applied (C08_*_full_if_fixed).')
+              'integer v, IntConverter.validate accepts v (unchanged) iff v satisfies the declared bounds (zero included) and the range of the declared size/signedness, else raises ValueError '
+              '(C08_int_declaration, C08_int, C08_int_reject); the same for float (all non-NaN values, C08_float), Decimal (C08_decimal), str (autostrip + max_len, with a proved '
+              'characterisation of strip()), and for None/empty/required/nullable/py_check handling of Attribute.validate / Required.validate over any converter (C08_optional, C08_required, C08_required_int). '
+              'Remaining defects of the code: max_len = 0 means "no limit" (C08_str_except_known holds on the exact complement, witness in Findings/C08.v) and float NaN passes any bounds (witness). '
+              'The int/float zero-bound defect found by this check was repaired in /repo (2abc421); the unrestricted theorems compute the defect flags to false from the regenerated translation, so a regression breaks them.')
 LEVEL_NOTE = ('Trusted: Coq kernel + vm_compute; the py2coq translator (cross-checked against the real classes on every run: ~10^4 (declaration, value) pairs, each also driven through '
               'Entity(...), assignment, set(), get() on SQLite); the hand-written composition of Attribute/Required.validate (correspondence-checked); the value abstraction '
               '(floats/Decimals as exact rationals, strings as code points). Not modelled: conversion of foreign input types (int("12"), float(Decimal) ...), DEFAULT handling, relationships, '
